@@ -69,7 +69,7 @@ theorem lines16_join (cur f : Bytes) : joinItems (lines16 cur f) = cur ++ f ∧ 
 
 /-- sizes: text and signature block partition the file -/
 theorem digestLoop_sizes (first : Bytes) (u16 : Bool) (k flen : Nat) (items : List Item) (saved h : Bytes) (ts pos : Nat)
-    (H : Bytes) (T S : Nat) (e : digestLoop true first u16 k flen items saved h ts pos = .ok (H, T, S))
+    (H : Bytes) (T S : Nat) (e : digestLoop true true first u16 k flen items saved h ts pos = .ok (H, T, S))
     (hg : Good items) (hp : pos = ts + saved.length) (hl : pos + (joinItems items).length = flen) :
     T + S = flen ∧ ts ≤ T := by
   induction items generalizing saved h ts pos with
@@ -87,10 +87,11 @@ theorem digestLoop_sizes (first : Bytes) (u16 : Bool) (k flen : Nat) (items : Li
     split at e
     · split at e
       · simp at e
-      · rename_i hk
-        injection e with e; injection e with e1 e2; injection e2 with e2 e3
-        simp only [List.length_take] at e2
-        omega
+      · split at e
+        · simp at e
+        · injection e with e; injection e with e1 e2; injection e2 with e2 e3
+          simp only [List.length_take] at e2
+          omega
     · have := ih l (h ++ conv u16 saved) (ts + saved.length) (pos + l.length) e hg' (by omega)
         (by simp only [joinItems]; omega)
       omega
@@ -107,7 +108,7 @@ theorem take_mid (h saved r : Bytes) (n : Nat) (hn : n ≤ saved.length) :
 
 /-- UTF-16 text is hashed as it is: the stream is the file up to `TextSize` -/
 theorem digestLoop_stream16 (first : Bytes) (k flen : Nat) (items : List Item) (saved h : Bytes) (ts pos : Nat)
-    (H : Bytes) (T S : Nat) (e : digestLoop true first true k flen items saved h ts pos = .ok (H, T, S))
+    (H : Bytes) (T S : Nat) (e : digestLoop true true first true k flen items saved h ts pos = .ok (H, T, S))
     (F : Bytes) (hF : F = h ++ saved ++ joinItems items) (hts : ts = h.length) :
     H = F.take T := by
   induction items generalizing saved h ts pos with
@@ -125,19 +126,20 @@ theorem digestLoop_stream16 (first : Bytes) (k flen : Nat) (items : List Item) (
       split at e
       · split at e
         · simp at e
-        · rename_i hk
-          injection e with e; injection e with e1 e2; injection e2 with e2 e3
-          subst hF; subst e1; subst e2; subst hts
-          simp only [conv, if_true, List.length_take, List.append_assoc]
-          have : min (saved.length - k) saved.length = saved.length - k := by omega
-          rw [this, take_mid h saved _ _ (by omega)]
+        · split at e
+          · simp at e
+          · injection e with e; injection e with e1 e2; injection e2 with e2 e3
+            subst hF; subst e1; subst e2; subst hts
+            simp only [conv, if_true, List.length_take, List.append_assoc]
+            have : min (saved.length - k) saved.length = saved.length - k := by omega
+            rw [this, take_mid h saved _ _ (by omega)]
       · refine ih l (h ++ conv true saved) (ts + saved.length) (pos + phys) e ?_ ?_
         · subst hF; simp [joinItems, itemBytes, conv, List.append_assoc]
         · subst hts; simp [conv]
 
 /-- the digest loop of the fixed code never panics -/
 theorem digestLoop_no_panic (first : Bytes) (u16 : Bool) (k flen : Nat) (items : List Item) (saved h : Bytes) (ts pos : Nat)
-    (s : String) : digestLoop true first u16 k flen items saved h ts pos ≠ .panic s := by
+    (s : String) : digestLoop true true first u16 k flen items saved h ts pos ≠ .panic s := by
   induction items generalizing saved h ts pos with
   | nil => simp [digestLoop]
   | cons it rest ih =>
@@ -146,7 +148,9 @@ theorem digestLoop_no_panic (first : Bytes) (u16 : Bool) (k flen : Nat) (items :
     | line l phys =>
       simp only [digestLoop]
       split
-      · split <;> simp
+      · split
+        · simp
+        · split <;> simp
       · exact ih _ _ _ _
 
 /-! ### the central characterisation -/
@@ -175,7 +179,7 @@ theorem DigestPS_spec (f : Bytes) (style : Nat) (d : Digest) (e : DigestPS f sty
     simp only [hs] at e
     obtain ⟨hj, hg⟩ := items_join f (isUtf16 f)
     generalize hit : (if isUtf16 f = true then lines16 [] f else lines8 [] f) = items at e hj hg
-    cases hl : digestLoop true (firstLine st en (isUtf16 f)) (isUtf16 f) (if isUtf16 f = true then 4 else 2) f.length items [] [] 0 0 with
+    cases hl : digestLoop true true (firstLine st en (isUtf16 f)) (isUtf16 f) (if isUtf16 f = true then 4 else 2) f.length items [] [] 0 0 with
     | err _ => simp [hl] at e
     | panic _ => simp [hl] at e
     | diverge => simp [hl] at e
